@@ -248,6 +248,312 @@ theorem C16_query (chain : Chain) (tips : List Nat) (x : Nat) :
 example : (([5, 9].foldl (pollPP (fun b => if b = 3 then some (.insert 1 10) else if b = 7 then some (.insert 2 11) else none)) {}).rows.map (·.ger)) = [1, 2] := by
   decide
 
+theorem foldl_max_ge : ∀ (l : List Nat) (a : Nat), a ≤ l.foldl max a ∧ ∀ x ∈ l, x ≤ l.foldl max a := by
+  intro l
+  induction l with
+  | nil => intro a; simp
+  | cons y ys ih =>
+    intro a
+    simp only [List.foldl_cons]
+    obtain ⟨h1, h2⟩ := ih (max a y)
+    refine ⟨by omega, ?_⟩
+    intro x hx
+    rcases List.mem_cons.mp hx with h | h
+    · subst h; omega
+    · exact h2 x h
+
+theorem foldl_max_mem : ∀ (l : List Nat) (a : Nat), l.foldl max a = a ∨ l.foldl max a ∈ l := by
+  intro l
+  induction l with
+  | nil => intro a; simp
+  | cons y ys ih =>
+    intro a
+    simp only [List.foldl_cons]
+    rcases ih (max a y) with h | h
+    · rw [h]
+      by_cases hy : a ≤ y
+      · right; simp [Nat.max_eq_right hy]
+      · left; omega
+    · right; exact List.mem_cons_of_mem _ h
+
+theorem filterMap_congr' {α β : Type} (f g : α → Option β) : ∀ (l : List α), (∀ a ∈ l, f a = g a) →
+    l.filterMap f = l.filterMap g := by
+  intro l
+  induction l with
+  | nil => intro _; rfl
+  | cons a rest ih =>
+    intro h
+    rw [List.filterMap_cons, List.filterMap_cons, h a (by simp), ih (fun b hb => h b (List.mem_cons_of_mem _ hb))]
+
+theorem eventBlocks_congr (c c' : Chain) (f t : Nat) (h : ∀ b, f ≤ b → b ≤ t → c b = c' b) :
+    eventBlocks c f t = eventBlocks c' f t := by
+  unfold eventBlocks
+  apply filterMap_congr'
+  intro b hb
+  rw [List.mem_range'_1] at hb
+  rw [h b hb.1 (by omega)]
+
+theorem eventBlocks_nil (c : Chain) (f t : Nat) (h : ∀ b, f ≤ b → b ≤ t → c b = none) : eventBlocks c f t = [] := by
+  apply List.eq_nil_iff_forall_not_mem.mpr
+  intro be hbe
+  have := (mem_eventBlocks c f t be.1 be.2).mp hbe
+  rw [h be.1 this.1 this.2.1] at this
+  simp at this
+
+theorem specRows_congr (c c' : Chain) (t : Nat) (h : ∀ b, 1 ≤ b → b ≤ t → c b = c' b) : specRows c t = specRows c' t := by
+  rw [specRows_eq, specRows_eq, eventBlocks_congr c c' 1 t h]
+
+/-- folding insert-only events appends one row per event -/
+theorem fold_inserts : ∀ (bes : List (Nat × GEv)) (rows : List Row),
+    (∀ be ∈ bes, ∀ g, be.2 ≠ .remove g) →
+    ∃ extra : List Row, bes.foldl applyEv rows = rows ++ extra ∧ ∀ r ∈ extra, ∃ be ∈ bes, r.blockNum = be.1 := by
+  intro bes
+  induction bes with
+  | nil => intro rows _; exact ⟨[], by simp, by simp⟩
+  | cons be rest ih =>
+    intro rows hins
+    simp only [List.foldl_cons]
+    cases hbe : be.2 with
+    | remove g => exact absurd hbe (hins be (by simp) g)
+    | insert g i =>
+      obtain ⟨extra, h1, h2⟩ := ih (applyEv rows be) (fun b hb => hins b (List.mem_cons_of_mem _ hb))
+      refine ⟨{ blockNum := be.1, ger := g, idx := i } :: extra, ?_, ?_⟩
+      · rw [h1]; unfold applyEv; simp [hbe]
+      · intro r hr
+        rcases List.mem_cons.mp hr with h | h
+        · exact ⟨be, by simp, by rw [h]⟩
+        · obtain ⟨b, hb, e⟩ := h2 r h; exact ⟨b, List.mem_cons_of_mem _ hb, e⟩
+
+/-- rows of the specification carry block numbers of event blocks at or below `t` -/
+theorem fold_blockNum : ∀ (bes : List (Nat × GEv)) (rows : List Row) (t : Nat),
+    (∀ r ∈ rows, r.blockNum ≤ t) → (∀ be ∈ bes, be.1 ≤ t) → ∀ r ∈ bes.foldl applyEv rows, r.blockNum ≤ t := by
+  intro bes
+  induction bes with
+  | nil => intro rows t h _; simpa using h
+  | cons be rest ih =>
+    intro rows t h hb
+    simp only [List.foldl_cons]
+    apply ih _ t _ (fun b hb' => hb b (List.mem_cons_of_mem _ hb'))
+    intro r hr
+    unfold applyEv at hr
+    cases hbe : be.2 with
+    | insert g i =>
+      simp only [hbe, List.mem_append, List.mem_singleton] at hr
+      rcases hr with hr | hr
+      · exact h r hr
+      · subst hr; exact hb be (by simp)
+    | remove g =>
+      simp only [hbe] at hr
+      exact h r (List.mem_filter.mp hr).1
+
+theorem specRows_blockNum (c : Chain) (t : Nat) : ∀ r ∈ specRows c t, r.blockNum ≤ t := by
+  rw [specRows_eq]
+  apply fold_blockNum _ _ t (by simp)
+  intro be hbe
+  exact ((mem_eventBlocks c 1 t be.1 be.2).mp hbe).2.1
+
+theorem lpb_le (c : Chain) (s : St) (inv : Inv c s) : lpb s ≤ s.from_ - 1 := by
+  unfold lpb
+  rcases foldl_max_mem s.blocks 0 with h | h
+  · omega
+  · have h' : List.foldl max 0 s.blocks ∈ (eventBlocks c 1 (s.from_ - 1)).map (·.1) := by rw [← inv.blocks]; exact h
+    obtain ⟨y, hy, e⟩ := List.mem_map.mp h'
+    have := (mem_eventBlocks c 1 (s.from_ - 1) y.1 y.2).mp hy
+    omega
+
+/-- nothing with an event lies between the last stored block and the downloader's position -/
+theorem no_event_above_lpb (c : Chain) (s : St) (inv : Inv c s) :
+    ∀ b, lpb s + 1 ≤ b → b ≤ s.from_ - 1 → c b = none := by
+  intro b h1 h2
+  cases hc : c b with
+  | none => rfl
+  | some e =>
+    exfalso
+    have hm : (b, e) ∈ eventBlocks c 1 (s.from_ - 1) := (mem_eventBlocks c 1 _ b e).mpr ⟨by omega, h2, hc⟩
+    have hb : b ∈ s.blocks := by rw [inv.blocks]; exact List.mem_map.mpr ⟨(b, e), hm, rfl⟩
+    have := (foldl_max_ge s.blocks 0).2 b hb
+    unfold lpb at h1; omega
+
+/-- moving the downloader's position down to just after the last stored block keeps the refinement
+    (what a restart does, and the last step of a reorg) -/
+theorem reposition_inv (c : Chain) (s : St) (inv : Inv c s) : Inv c { s with from_ := lpb s + 1 } := by
+  have hle := lpb_le c s inv
+  have hnone := no_event_above_lpb c s inv
+  have hsplit := eventBlocks_split c 1 (lpb s) (s.from_ - 1) (by omega) hle
+  rw [eventBlocks_nil c (lpb s + 1) (s.from_ - 1) hnone, List.append_nil] at hsplit
+  refine ⟨by simp, ?_, ?_⟩
+  · simp only [Nat.add_sub_cancel]
+    rw [inv.rows, specRows_eq, specRows_eq, hsplit]
+  · simp only [Nat.add_sub_cancel]
+    rw [inv.blocks, hsplit]
+
+theorem restart_inv (c : Chain) (s : St) (inv : Inv c s) : Inv c (restart s) := reposition_inv c s inv
+
+/-- the chain after a reorg at `first`: unchanged below, `c'` from there on -/
+def forkChain (c : Chain) (first : Nat) (c' : Chain) : Chain := fun b => if b < first then c b else c' b
+
+/-- **a reorg keeps the refinement** — provided none of the dropped, already processed blocks carried a REMOVAL
+    (the excluded case is known finding F4: the row deleted by that removal does not come back) -/
+theorem reorg_inv (c c' : Chain) (s : St) (first : Nat) (inv : Inv c s)
+    (hnorm : ∀ b, first ≤ b → b ≤ s.from_ - 1 → ∀ g, c b ≠ some (.remove g)) :
+    Inv (forkChain c first c') (reorg s first) := by
+  let t := s.from_ - 1
+  let m := min (first - 1) t
+  have hm1 : m ≤ t := Nat.min_le_right _ _
+  have hsplit := eventBlocks_split c 1 m t (by omega) hm1
+  -- everything in the first part is kept, everything in the second part is dropped
+  have hkeep : ∀ be ∈ eventBlocks c 1 m, be.1 < first := by
+    intro be hbe
+    have := (mem_eventBlocks c 1 m be.1 be.2).mp hbe
+    have : m ≤ first - 1 := Nat.min_le_left _ _
+    omega
+  have hdrop : ∀ be ∈ eventBlocks c (m + 1) t, ¬ be.1 < first := by
+    intro be hbe
+    have h := (mem_eventBlocks c (m + 1) t be.1 be.2).mp hbe
+    by_cases hc : first - 1 ≤ t
+    · have : m = first - 1 := Nat.min_eq_left hc
+      omega
+    · have : m = t := Nat.min_eq_right (by omega)
+      omega
+  have hagree : ∀ b, 1 ≤ b → b ≤ m → c b = forkChain c first c' b := by
+    intro b hb1 hb
+    have : m ≤ first - 1 := Nat.min_le_left _ _
+    unfold forkChain
+    rw [if_pos (by omega)]
+  have hcongr : eventBlocks c 1 m = eventBlocks (forkChain c first c') 1 m := eventBlocks_congr _ _ 1 m hagree
+  -- the dropped part is insert-only
+  have hins : ∀ be ∈ eventBlocks c (m + 1) t, ∀ g, be.2 ≠ .remove g := by
+    intro be hbe g hg
+    have h := (mem_eventBlocks c (m + 1) t be.1 be.2).mp hbe
+    have hf : first ≤ be.1 := by have := hdrop be hbe; omega
+    exact hnorm be.1 hf h.2.1 g (by rw [h.2.2, hg])
+  obtain ⟨extra, hextra, hextraBlocks⟩ := fold_inserts (eventBlocks c (m + 1) t) (specRows c m) hins
+  have hrowsT : specRows c t = specRows c m ++ extra := by
+    rw [specRows_eq c t, hsplit, List.foldl_append, ← specRows_eq c m, hextra]
+  have hstate : Inv (forkChain c first c')
+      { blocks := s.blocks.filter (· < first), rows := s.rows.filter (fun r => r.blockNum < first), from_ := m + 1 } := by
+    refine ⟨by simp, ?_, ?_⟩
+    · simp only [Nat.add_sub_cancel]
+      rw [inv.rows, hrowsT, List.filter_append]
+      have h1 : (specRows c m).filter (fun r => decide (r.blockNum < first)) = specRows c m := by
+        apply List.filter_eq_self.mpr
+        intro r hr
+        have := specRows_blockNum c m r hr
+        have hm2 : m ≤ first - 1 := Nat.min_le_left _ _
+        by_cases hf : first = 0
+        · -- then m = 0 and the specification has no rows at all
+          exfalso
+          have hm0 : m = 0 := by omega
+          rw [hm0] at hr
+          simp [specRows, eventBlocks] at hr
+        · simp; omega
+      have h2 : extra.filter (fun r => decide (r.blockNum < first)) = [] := by
+        apply List.filter_eq_nil_iff.mpr
+        intro r hr
+        obtain ⟨be, hbe, e⟩ := hextraBlocks r hr
+        have := hdrop be hbe
+        simp; omega
+      rw [h1, h2, List.append_nil, specRows_congr c (forkChain c first c') m]
+      exact hagree
+    · simp only [Nat.add_sub_cancel]
+      rw [inv.blocks, hsplit, List.map_append, List.filter_append]
+      have h1 : ((eventBlocks c 1 m).map (·.1)).filter (fun x => decide (x < first)) = (eventBlocks c 1 m).map (·.1) := by
+        apply List.filter_eq_self.mpr
+        intro x hx
+        obtain ⟨be, hbe, e⟩ := List.mem_map.mp hx
+        have := hkeep be hbe
+        simp; omega
+      have h2 : ((eventBlocks c (m + 1) t).map (·.1)).filter (fun x => decide (x < first)) = [] := by
+        apply List.filter_eq_nil_iff.mpr
+        intro x hx
+        obtain ⟨be, hbe, e⟩ := List.mem_map.mp hx
+        have := hdrop be hbe
+        simp; omega
+      rw [h1, h2, List.append_nil, hcongr]
+  have := reposition_inv _ _ hstate
+  exact this
+
+
+/-! ### the full history: polls, restarts and reorgs -/
+
+inductive GOp where
+  | poll (tip : Nat)
+  | restart
+  | reorg (first : Nat) (newChain : Chain)    -- blocks ≥ first are replaced by those of `newChain`
+
+def stepOp (cs : Chain × St) : GOp → Chain × St
+  | .poll t => (cs.1, pollPP cs.1 cs.2 t)
+  | .restart => (cs.1, restart cs.2)
+  | .reorg f c' => (forkChain cs.1 f c', reorg cs.2 f)
+
+/-- the one excluded situation (known finding F4): a reorg that drops an already processed REMOVAL -/
+def OpOK (cs : Chain × St) : GOp → Prop
+  | .reorg f _ => ∀ b, f ≤ b → b ≤ cs.2.from_ - 1 → ∀ g, cs.1 b ≠ some (.remove g)
+  | _ => True
+
+def OpsOK : Chain × St → List GOp → Prop
+  | _, [] => True
+  | cs, op :: rest => OpOK cs op ∧ OpsOK (stepOp cs op) rest
+
+theorem stepOp_inv (cs : Chain × St) (op : GOp) (inv : Inv cs.1 cs.2) (hok : OpOK cs op) :
+    Inv (stepOp cs op).1 (stepOp cs op).2 := by
+  cases op with
+  | poll t => exact pollPP_inv cs.1 cs.2 t inv
+  | restart => exact restart_inv cs.1 cs.2 inv
+  | reorg f c' => exact reorg_inv cs.1 c' cs.2 f inv hok
+
+theorem runOps_inv : ∀ (ops : List GOp) (cs : Chain × St), Inv cs.1 cs.2 → OpsOK cs ops →
+    Inv (ops.foldl stepOp cs).1 (ops.foldl stepOp cs).2 := by
+  intro ops
+  induction ops with
+  | nil => intro cs inv _; exact inv
+  | cons op rest ih =>
+    intro cs inv hok
+    simp only [List.foldl_cons]
+    exact ih _ (stepOp_inv cs op inv hok.1) hok.2
+
+/-- **C16 (table, full history)**: after ANY sequence of polls (tips advancing by any amount), restarts of the node at any
+    point and reorgs at any block — as long as no reorg drops an already processed removal (F4) — the table holds exactly
+    the injected, not-removed GERs of the CURRENT chain's blocks up to the downloader's position. -/
+theorem C16_table_ops (c0 : Chain) (ops : List GOp) (hok : OpsOK (c0, {}) ops) :
+    let cs := ops.foldl stepOp (c0, {})
+    cs.2.rows = specRows cs.1 (cs.2.from_ - 1) :=
+  (runOps_inv ops (c0, {}) (init_inv c0) hok).rows
+
+/-- **C16 (query, full history)** -/
+theorem C16_query_ops (c0 : Chain) (ops : List GOp) (hok : OpsOK (c0, {}) ops) (x : Nat) :
+    let cs := ops.foldl stepOp (c0, {})
+    (∀ r, firstAfter cs.2 x = some r →
+        r ∈ specRows cs.1 (cs.2.from_ - 1) ∧ r.idx ≥ x ∧ ∀ r' ∈ specRows cs.1 (cs.2.from_ - 1), r'.idx ≥ x → r.idx ≤ r'.idx) ∧
+    ((∃ r ∈ specRows cs.1 (cs.2.from_ - 1), r.idx ≥ x) → ∃ r, firstAfter cs.2 x = some r) := by
+  intro cs
+  have hrows := C16_table_ops c0 ops hok
+  have := firstAfter_spec cs.2 x
+  rw [hrows] at this
+  exact this
+
+/-- the excluded case is real (F4): insertion in block 1, removal in block 2, both processed, reorg of block 2 — the row
+    does not come back although the current chain still has the insertion and no removal -/
+theorem C16_reorg_false_with_removal :
+    let c0 : Chain := fun b => if b = 1 then some (.insert 7 0) else if b = 2 then some (.remove 7) else none
+    let cs := [GOp.poll 2, GOp.reorg 2 (fun _ => none)].foldl stepOp (c0, {})
+    cs.2.rows = [] ∧ specRows cs.1 (cs.2.from_ - 1) = [{ blockNum := 1, ger := 7, idx := 0 }] := by
+  decide
+
+/-- non-vacuity: a history with a restart and a reorg that meets the hypothesis -/
+def exChain : Chain := fun b => if b = 2 then some (.insert 1 10) else if b = 5 then some (.insert 2 11) else none
+def exOps : List GOp := [.poll 3, .restart, .poll 6, .reorg 5 (fun b => if b = 6 then some (.insert 3 12) else none), .poll 8]
+example : OpsOK (exChain, {}) exOps := by
+  simp only [OpsOK, OpOK, exOps]
+  refine ⟨trivial, trivial, trivial, ?_, trivial, trivial⟩
+  intro b h1 h2 g
+  simp only [List.foldl, stepOp, exChain] at h2 ⊢
+  have : b = 5 ∨ b = 6 := by
+    have : (pollPP exChain (restart (pollPP exChain {} 3)) 6).from_ = 7 := by decide
+    omega
+  rcases this with h | h <;> subst h <;> simp
+example : ((exOps.foldl stepOp (exChain, {})).2.rows.map (fun r => (r.blockNum, r.ger))) = [(2, 1), (6, 3)] := by decide
+
 /-! ### FEP mode: the downloader reads the L2 GER map against the L1 info leaves -/
 
 /-- one FEP poll: the tip and what the L2 GER map answers at that moment -/
